@@ -1,6 +1,6 @@
 (* Entry point of the extracted evaluator. *)
 From Coq Require Import String.
-From HS Require Import Lib.Base Run.Val Run.ServeRun Run.ServeSpec Run.NegotRun Run.StreamRun Run.DirRun Run.FileRun Run.SchedRun.
+From HS Require Import Lib.Base Model.Serve Run.Val Run.ServeRun Run.ServeSpec Run.NegotRun Run.StreamRun Run.DirRun Run.FileRun Run.SchedRun.
 
 Definition E_SERVE := bs "serve"%string.
 Definition E_NEGOT := bs "negot"%string.
@@ -21,7 +21,11 @@ Definition run_case (engine : bytes) (v : val) : val :=
                 ++ match dec_sobs obs with
                    | None =>          (* serve itself panicked (or the observation is malformed) *)
                        match obs with
-                       | VL [VB _] => [clause "C13" "serve-panicked"]
+                       | VL [VB _] =>
+                           clause "C13" "serve-panicked"
+                           :: (* C03: "no Range value, however large its numbers, makes serve fail" *)
+                              (if is_some (r_range (i_req i)) && only_range (i_req i) && (is_get i || is_head i)
+                               then [clause "C03" "range-value-makes-serve-fail"] else [])
                        | _ => []
                        end
                    | Some o => spec_serve_all i o
